@@ -176,7 +176,7 @@ Qed.
 
 (* ---------- XORKeyStream ---------- *)
 Definition dst_for (al : alias) (src dst0 : list N) : list N :=
-  match al with InPlace => src | Disjoint => dst0 end.
+  match al with InPlace => src ++ dst0 | Disjoint => dst0 end.
 
 Lemma xks_ok de st al src dst0 reg : Inv st reg -> length src <= length (dst_for al src dst0) ->
   exists st', xor_key_stream E de st al src dst0
